@@ -121,7 +121,7 @@ class OsModuleProxy:
         self._real, self._h = real, hub
 
     def remove(self, path, *a, **kw):
-        if self._h.db_path and str(path) == self._h.db_path:
+        if self._h.db_path and (str(path) == self._h.db_path or (getattr(self._h, "db_name", None) and str(path).endswith("/" + self._h.db_name))):
             with self._h.lock:
                 self._h.removed.append(self._h.wid())
         return self._h.call("os.remove", lambda: self._real.remove(path, *a, **kw))
